@@ -50,6 +50,7 @@ const (
 	HsRet                // a caller returned from Wait / a directive
 	HsArg                // argument probe
 	HsMisc
+	HsCtxErr // inside Err() of a user-defined context (a synchronisation point like any other)
 )
 
 // Kind of goroutine.
@@ -84,6 +85,7 @@ type Slot struct {
 	LastSite   int
 	Exited     bool
 	Foreign    bool
+	inHook     bool // inside a scheduler hook that calls back into user code
 	Tag        int
 	lastRun    int // step of the last grant (fair default order)
 
@@ -127,10 +129,11 @@ const (
 	PrMultiArm               // a loop select with >= 2 ready arms
 	PrIdleAdvance            // time advanced with nothing releasable
 	PrWaitTookDone           // both Wait arms ready and the ctx.Done arm was taken
+	PrCtxErrYield            // a goroutine was parked inside Err() of a user-defined context
 	NumProbes
 )
 
-var ProbeNames = [...]string{"over_dispatch", "donec_full", "drain_swallowed_enqueue", "wait_left_by_ctx_loop_alive", "wait_both_arms_ready", "worker_died_replaced", "tick_while_ready", "select_multi_arm", "idle_time_advance", "wait_both_arms_ready_took_ctx_done"}
+var ProbeNames = [...]string{"over_dispatch", "donec_full", "drain_swallowed_enqueue", "wait_left_by_ctx_loop_alive", "wait_both_arms_ready", "worker_died_replaced", "tick_while_ready", "select_multi_arm", "idle_time_advance", "wait_both_arms_ready_took_ctx_done", "parked_inside_user_context_Err"}
 
 // Sim is one simulated execution.
 type Sim struct {
@@ -559,7 +562,9 @@ func (s *Sim) hookWaitSelect(key uintptr, ctxDone func() bool) int {
 	if s.abort {
 		return scheduler.VerifWaitFree
 	}
+	sl.inHook = true // ctxDone calls Err(): no second park from inside this hook
 	done := ctxDone()
+	sl.inHook = false
 	fin := s.schedOf(key).killed
 	sl.WaitBoth = done && fin
 	sl.armPick = 0
@@ -1052,7 +1057,7 @@ var siteNames = map[int]string{
 	scheduler.VerifEnqSend: "Enqueue:before-send", scheduler.VerifLStart: "loop:start", scheduler.VerifLExit: "loop:exit",
 	scheduler.VerifLPreKill: "loop:before-close", scheduler.VerifLDrain: "loop:drained-one", scheduler.VerifWaitClose: "Wait:before-close",
 	scheduler.VerifLSelect: "loop:select", scheduler.VerifWaitSelect_: "Wait:select",
-	HsStart: "harness:start", HsBody: "body:enter", HsStep: "body:step", HsHeld: "held", HsAfter: "after-wakeup-action", HsRet: "caller:returned", HsArg: "arg-probe", HsMisc: "harness",
+	HsStart: "harness:start", HsBody: "body:enter", HsStep: "body:step", HsHeld: "held", HsAfter: "after-wakeup-action", HsRet: "caller:returned", HsArg: "arg-probe", HsMisc: "harness", HsCtxErr: "ctx.Err()",
 }
 
 func SiteName(site int) string {
@@ -1287,6 +1292,45 @@ type UserCtx struct {
 	mu     sync.Mutex
 	done   chan struct{}
 	err    error
+	sim    *Sim
+	// calls of Err() by the goroutine in slot cntSlot are counted in Counters[cntIdx]
+	cntSlot, cntIdx int
+}
+
+// CountCalls counts the calling goroutine's future calls of Err() in counter idx.
+func (c *UserCtx) CountCalls(s *Sim, idx int) { c.cntSlot, c.cntIdx = s.SlotIndex(), idx }
+
+// YieldIn makes Err() a scheduling point of s for the goroutines s knows:
+// whoever asks is parked first and reads afterwards, so that the context can
+// end between any two looks at it (as it can in a real execution, where
+// nothing orders the canceller against the reader).
+func (c *UserCtx) YieldIn(s *Sim) { c.sim = s }
+
+// ErrQuiet is Err without the scheduling point (for the harness's own reads).
+func (c *UserCtx) ErrQuiet() error {
+	c.mu.Lock()
+	defer c.mu.Unlock()
+	return c.err
+}
+
+//go:norace
+func (s *Sim) ctxErrYield(c *UserCtx) {
+	if s.abort {
+		return
+	}
+	i := s.SlotIndex()
+	if i < 0 {
+		return // not a goroutine of the run (the standard library's context propagation, say)
+	}
+	sl := &s.slots[i]
+	if sl.inHook || sl.Exited {
+		return
+	}
+	s.Probes[PrCtxErrYield]++
+	if c.cntIdx > 0 && i == c.cntSlot {
+		s.Counters[c.cntIdx]++
+	}
+	s.park(sl, HsCtxErr)
 }
 
 func NewUserCtx(parent context.Context) *UserCtx {
@@ -1296,9 +1340,10 @@ func (c *UserCtx) Deadline() (time.Time, bool) { return time.Time{}, false }
 func (c *UserCtx) Done() <-chan struct{}       { return c.done }
 func (c *UserCtx) Value(k any) any             { return c.Parent.Value(k) }
 func (c *UserCtx) Err() error {
-	c.mu.Lock()
-	defer c.mu.Unlock()
-	return c.err
+	if c.sim != nil {
+		c.sim.ctxErrYield(c)
+	}
+	return c.ErrQuiet()
 }
 
 // Cancel ends the context with context.Canceled.
